@@ -15,6 +15,10 @@ pub trait Elem: MatrixElement + PartialEq + Debug + 'static {
     fn irreflexive() -> Option<Self> {
         None
     }
+    /// two different representations of one value, when the type has them (f32: 0.0 and -0.0)
+    fn equal_pair() -> Option<(Self, Self)> {
+        None
+    }
     const NAME: &'static str;
 }
 impl Elem for u8 {
@@ -44,6 +48,9 @@ impl Elem for f32 {
     }
     fn irreflexive() -> Option<Self> {
         Some(f32::NAN)
+    }
+    fn equal_pair() -> Option<(Self, Self)> {
+        Some((0.0, -0.0))
     }
     const NAME: &'static str = "f32";
 }
@@ -486,6 +493,17 @@ impl<T: Elem, C: ArrayLength + PartialEq> Sys<T, C> {
             // equality is a function of the logical cells and nothing else (not of object identity): with a
             // cell that is not equal to itself the matrix answers what the table of its cells answers,
             // whether it is compared with itself, with its clone or with a rebuilt matrix
+            // ... and of the VALUES of the cells, not of their bit patterns
+            if let Some((x, y)) = T::equal_pair() {
+                let (i, j) = (rows - 1, c - 1);
+                let mut a = m.clone();
+                let mut b = m.clone();
+                a[i][j] = x;
+                b[i][j] = y;
+                if a != b || !(a == b) {
+                    return Err(format!("matrices whose cells are all equal (cell ({},{}) holds {:?} in one and {:?} in the other) compare unequal", i, j, x, y));
+                }
+            }
             if let Some(w) = T::irreflexive() {
                 for (i, j) in [(0usize, 0usize), (rows - 1, c - 1)] {
                     let mut table = self.model.clone();
